@@ -185,6 +185,12 @@ func c04NewEnv(t *testing.T) *c04Env {
 			fmt.Fprintf(w, `{"sub":%q,"active":true}`, strings.TrimPrefix(v, "good-"))
 		case strings.HasPrefix(v, "inactive-"):
 			fmt.Fprintf(w, `{"sub":%q,"active":false}`, strings.TrimPrefix(v, "inactive-"))
+		case strings.HasPrefix(v, "expired-"):
+			fmt.Fprintf(w, `{"sub":%q,"active":true,"exp":%d}`, strings.TrimPrefix(v, "expired-"), time.Now().Unix()-1000)
+		case strings.HasPrefix(v, "notyet-"):
+			fmt.Fprintf(w, `{"sub":%q,"active":true,"nbf":%d}`, strings.TrimPrefix(v, "notyet-"), time.Now().Unix()+1000)
+		case strings.HasPrefix(v, "iatfuture-"):
+			fmt.Fprintf(w, `{"sub":%q,"active":true,"iat":%d}`, strings.TrimPrefix(v, "iatfuture-"), time.Now().Unix()+1000)
 		case strings.HasPrefix(v, "nosub-"):
 			w.Write([]byte(`{"active":true}`))
 		default:
@@ -266,8 +272,8 @@ type c04Authn struct {
 }
 
 type c04Token struct {
-	JWT    string `json:"jwt"`    // notjws:<v> noclaims keyunknown:<v> badsig:<v> assertfail:<v> narrow:<v> nosub valid | garbage (see c04Garbage)
-	Intro  string `json:"intro"`  // inactive assertfail:<v> narrow:<v> nosub active
+	JWT    string `json:"jwt"`    // notjws:<v> noclaims keyunknown:<v> badsig:<v> assertfail:<v> narrow:<v> nosub[:empty] valid[:<v>] | garbage (see c04Garbage)
+	Intro  string `json:"intro"`  // inactive[:absent] assertfail:<v> narrow:<v> nosub[:empty] active[:<v>]
 	Sub    string `json:"sub"`    // subject the jwt authenticator would extract
 	ISub   string `json:"isub"`   // subject the introspection endpoint reports
 	Serial string `json:"serial"` // the token string (filled in by the driver)
@@ -284,7 +290,7 @@ type c04Req struct {
 	QueryBlank bool      `json:"query_blank,omitempty"` // ?access_token=%20
 	Body       string    `json:"body"`                  // none:<variant> multi:<variant> tok tok-json tok-json-array1
 	BodyTok    *c04Token `json:"body_tok,omitempty"`
-	Cookie     string    `json:"cookie,omitempty"` // session value: good-<sub> inactive-<sub> nosub-x unknown-x
+	Cookie     string    `json:"cookie,omitempty"` // session value: good-<sub> inactive-|expired-|notyet-|iatfuture-<sub> nosub-x unknown-x
 	XSess      string    `json:"xsess,omitempty"`
 	Sw         string    `json:"sw"` // what the switchable endpoints do during this request
 }
@@ -315,26 +321,28 @@ func c04GenToken(r *vf.Rand) *c04Token {
 	case x < 45:
 		t.JWT = "badsig:" + vf.Pick(r, []string{"flip", "otherkey", "rsa-ps256", "hs256-pub"})
 	case x < 57:
-		t.JWT = "assertfail:" + vf.Pick(r, []string{"issuer", "expired", "notyet"})
+		// every assertion of claims.Validate, with a wrong, an absent, an empty and an ill-typed value where that makes a difference
+		t.JWT = "assertfail:" + vf.Pick(r, []string{"issuer", "noiss", "emptyiss", "iss-number", "expired", "notyet", "iat-future"})
 	case x < 66:
-		t.JWT = "narrow:" + vf.Pick(r, []string{"aud", "scope", "noaud"})
+		t.JWT = "narrow:" + vf.Pick(r, []string{"aud", "scope", "noaud", "noscope"})
 	case x < 72:
-		t.JWT = "nosub"
+		t.JWT = vf.Pick(r, []string{"nosub", "nosub:empty"})
 	default:
-		t.JWT = "valid"
+		// absent optional claims and the alternative spellings are fine
+		t.JWT = vf.Pick(r, []string{"valid", "valid", "valid", "valid:noexp", "valid:nonbf-noiat", "valid:scp-array", "valid:aud-string"})
 	}
 
 	switch x := r.Intn(100); {
 	case x < 26:
-		t.Intro = "inactive"
-	case x < 38:
-		t.Intro = "assertfail:" + vf.Pick(r, []string{"issuer", "expired"})
-	case x < 48:
-		t.Intro = "narrow:" + vf.Pick(r, []string{"aud", "scope"})
-	case x < 56:
-		t.Intro = "nosub"
+		t.Intro = vf.Pick(r, []string{"inactive", "inactive", "inactive:absent"})
+	case x < 40:
+		t.Intro = "assertfail:" + vf.Pick(r, []string{"issuer", "noiss", "emptyiss", "iss-number", "expired", "notyet", "iat-future"})
+	case x < 50:
+		t.Intro = "narrow:" + vf.Pick(r, []string{"aud", "scope", "noaud", "noscope"})
+	case x < 57:
+		t.Intro = vf.Pick(r, []string{"nosub", "nosub:empty"})
 	default:
-		t.Intro = "active"
+		t.Intro = vf.Pick(r, []string{"active", "active", "active", "active:noexp", "active:scp-array"})
 	}
 
 	return t
@@ -345,7 +353,8 @@ func c04GenSession(r *vf.Rand) string {
 	case x < 45:
 		return "good-" + vf.Pick(r, c04Subs)
 	case x < 65:
-		return "inactive-" + vf.Pick(r, c04Subs)
+		// fails one of the session lifespan assertions (if the instance has any)
+		return vf.Pick(r, []string{"inactive-", "inactive-", "expired-", "notyet-", "iatfuture-"}) + vf.Pick(r, c04Subs)
 	case x < 78:
 		return "nosub-x"
 	}
@@ -696,8 +705,16 @@ func (e *c04Env) serialize(t *c04Token, r *vf.Rand) {
 		switch variant {
 		case "issuer":
 			claims["iss"] = "https://evil.example"
+		case "noiss":
+			delete(claims, "iss")
+		case "emptyiss":
+			claims["iss"] = ""
+		case "iss-number":
+			claims["iss"] = 42
 		case "expired":
 			claims["exp"] = now - 1000
+		case "iat-future":
+			claims["iat"] = now + 1000
 		default:
 			claims["nbf"] = now + 1000
 		}
@@ -709,6 +726,8 @@ func (e *c04Env) serialize(t *c04Token, r *vf.Rand) {
 			claims["aud"] = []string{"svc-b"}
 		case "scope":
 			claims["scope"] = "write"
+		case "noscope":
+			delete(claims, "scope")
 		default:
 			delete(claims, "aud")
 		}
@@ -716,8 +735,26 @@ func (e *c04Env) serialize(t *c04Token, r *vf.Rand) {
 		t.Serial = e.sign(jose.ES256, e.ec, "k1", claims)
 	case "nosub":
 		delete(claims, "sub")
+
+		if variant == "empty" {
+			claims["sub"] = ""
+		}
+
 		t.Serial = e.sign(jose.ES256, e.ec, "k1", claims)
 	default:
+		switch variant {
+		case "noexp":
+			delete(claims, "exp")
+		case "nonbf-noiat":
+			delete(claims, "nbf")
+			delete(claims, "iat")
+		case "scp-array":
+			delete(claims, "scope")
+			claims["scp"] = []string{"read", "write"}
+		case "aud-string":
+			claims["aud"] = "svc-a"
+		}
+
 		kid := "k1"
 		if r.Chance(25) {
 			kid = "" // verified by trying every published key
@@ -733,20 +770,52 @@ func (e *c04Env) serialize(t *c04Token, r *vf.Rand) {
 	switch kind {
 	case "inactive":
 		ans["active"] = false
+
+		if variant == "absent" {
+			delete(ans, "active")
+		}
 	case "assertfail":
-		if variant == "issuer" {
+		switch variant {
+		case "issuer":
 			ans["iss"] = "https://evil.example"
-		} else {
+		case "noiss": // RFC 7662: iss is optional in the response
+			delete(ans, "iss")
+		case "emptyiss":
+			ans["iss"] = ""
+		case "iss-number":
+			ans["iss"] = 42
+		case "notyet":
+			ans["nbf"] = now + 1000
+		case "iat-future":
+			ans["iat"] = now + 1000
+		default:
 			ans["exp"] = now - 1000
 		}
 	case "narrow":
-		if variant == "aud" {
+		switch variant {
+		case "aud":
 			ans["aud"] = []string{"svc-b"}
-		} else {
+		case "noaud":
+			delete(ans, "aud")
+		case "noscope":
+			delete(ans, "scope")
+		default:
 			ans["scope"] = "write"
 		}
 	case "nosub":
 		delete(ans, "sub")
+
+		if variant == "empty" {
+			ans["sub"] = ""
+		}
+	default:
+		switch variant {
+		case "noexp":
+			delete(ans, "exp")
+		case "scp-array":
+			delete(ans, "scope")
+			ans["scp"] = []string{"read", "write"}
+		}
 	}
 
 	b, _ := json.Marshal(ans)
@@ -1148,7 +1217,7 @@ func (e *c04Env) prototype(id string, a c04Authn) config.Mechanism {
 		c["subject"] = map[string]any{"id": "sub"}
 
 		if a.Lifespan {
-			c["session_lifespan"] = map[string]any{"active": "active"}
+			c["session_lifespan"] = map[string]any{"active": "active", "not_after": "exp", "not_before": "nbf", "issued_at": "iat"}
 		}
 	}
 
@@ -1485,7 +1554,9 @@ func c04CoqToken(t *c04Token) string {
 	case "badsig":
 		j = "(JWS true JBadSig)"
 	case "assertfail":
-		j = "(JWS " + vf.CoqBool(variant != "issuer") + " JAssertFail)"
+		// the metadata server knows documents for the token's issuer (templated discovery)
+		known := variant != "issuer" && variant != "noiss" && variant != "emptyiss" && variant != "iss-number"
+		j = "(JWS " + vf.CoqBool(known) + " JAssertFail)"
 	case "narrow":
 		j = "(JWS true (JNarrow " + vf.CoqStr(t.Sub) + "))"
 	case "nosub":
@@ -1530,7 +1601,7 @@ func c04CoqSession(s string) string {
 	switch kind {
 	case "good":
 		return "(Some (SGood " + vf.CoqStr(sub) + "))"
-	case "inactive":
+	case "inactive", "expired", "notyet", "iatfuture":
 		return "(Some (SInactive " + vf.CoqStr(sub) + "))"
 	case "nosub":
 		return "(Some SNoSubject)"
@@ -1798,6 +1869,12 @@ func c04Tags(c c04Case, o c04Obs) []string {
 
 	for i, so := range o.Steps {
 		q := c.Steps[i]
+		for _, t := range []*c04Token{q.AuthTok, q.XTok, q.QueryTok, q.BodyTok} {
+			if t != nil {
+				tags = append(tags, "tok:jwt:"+t.JWT, "tok:intro:"+t.Intro)
+			}
+		}
+
 		auth, _, _ := strings.Cut(q.Auth, ":")
 		tags = append(tags, "req_auth:"+auth, fmt.Sprintf("consulted:%d", min(len(so.Seen), 6)))
 
@@ -1930,6 +2007,10 @@ func c04Corpus() []c04Case {
 		one("direct", c04Req{Auth: "absent", Body: "none:nobody", Sw: "up", XTok: valid.AuthTok}, c04Authn{Type: "jwt", Remote: "up", Source: "custom"}, jwtA, anon),
 		one("direct", c04Req{Auth: "basic:pair", BasicUser: "alice", BasicPass: "se:cret", Body: "none:nobody", Sw: "up"}, c04Authn{Type: "basic_auth", User: "alice", Pass: "se:cret"}, anon),
 		one("direct", bearer("noclaims", "active", "up"), jwtA, anon),
+		// seeded round 4: a token without iss fails the issuer assertion - a rejection, whatever the error chain carries
+		one("direct", bearer("assertfail:noiss", "active", "up"), jwtA, anon),
+		one("decision", bearer("notjws:opaque", "assertfail:noiss", "up"), jwtA, intro, anon),
+		one("envoy", bearer("assertfail:emptyiss", "assertfail:iat-future", "up"), intro, anon),
 		// a payload cached by an instance without session_lifespan is asserted by the one with it (fix abc25e7)
 		{Chain: []c04Authn{{Type: "generic", Remote: "up", Lifespan: true, TTL: "rule:5m", ProtoFB: true}, {Type: "generic", Remote: "up", TTL: "rule:5m"}},
 			Entry: "direct", Steps: []c04Req{inactiveSess, inactiveSess}},
